@@ -65,6 +65,16 @@ CHECKS = {
    text="TLC checks Agree for all mode pairs, fallback/echo invariants on every offer list, and writes expected selections; the harness compares the real response header, rejects what must be rejected, and then exchanges 4+4 cross-referencing compressed messages with a raw peer using compress/flate with exactly the negotiated context-takeover flags, so a flag taken from the wrong side fails to decode.",
    note="Go compress/flate is the reference codec; responses from non-compliant servers are outside the statement.",
    design="6/C14"),
+ "C09": dict(
+   technique="TLA+ liveness with timers as separately enabled actions (spec/WSClose.tla, WSConn liveness config): 'is this timer needed' is decided by TLC with the timer's action removed; TLC-written adversary x state table replayed against the real code with real timers",
+   text="TLC checks that Close ends with only the two 5 s timers enabled and that the CloseRead context is cancelled with no timer at all, and that the two pre-fix deviations violate these properties; 228 adversary scripts x local states x operations x roles run concurrently on the real Conn and durations are compared with 3 s + 5 s per timer the specification allows; the WgTimeout hook flags any reliance on the 15 s backstop.",
+   note="Seconds are measured (3 s slack, process otherwise idle); TLC decides only which timers a path may need.",
+   design="6/C09"),
+ "C10": dict(
+   technique="TLA+ abstraction of the timeoutLoop discipline (spec/WSTimeout.tla) checked by TLC and discharged as an inductive invariant by Apalache; TLC-generated programs replayed on real connections; TLC trace validation of the context hand-off protocol (TraceConn.tla)",
+   text="Harmless (a context of a successfully returned call never closes the connection) holds for unbounded programs by Apalache's inductive check (init + step; the variant without the hand-back fails the step), TLC checks bounded programs; 84-210 programs x role x compression are run with each context cancelled after success or while blocked (transport, mid-message, message lock, pong) and their hook traces are validated: every context handed to the timeoutLoop matches what the sender logged, and no fired context belongs to a successful call.",
+   note="'promptly' is 2 s measured. The abstraction is bound to the code through the hand-off rules checked on traces, not by a proof.",
+   design="6/C10"),
  "C03": dict(
    technique="TLA+ reference decoder (spec/WSRecv.tla) model-checked by TLC; TLC-generated behaviours (all frame streams up to a length bound) replayed into the real Conn and compared with the specification's predicted reaction",
    text="TLC checks the reference decoder automaton and enumerates every frame stream of <=3 (quick) / <=4 (thorough) letters over a 43-letter alphabet of valid and single-violation frames; each is serialised by an independent raw peer and fed to a real Conn in both roles, compression modes and transport chunkings; messages, Pongs, Close echo, failing read and absence of panics are compared with React/Run. Exhaustive within the alphabet and length bound.",
